@@ -136,6 +136,7 @@ Record lex_case := {
   lc_thr : Q;
   lc_thr2 : Q;                       (* a second threshold >= lc_thr *)
   lc_exact : bool;                   (* exact and float decisions are certified to agree *)
+  lc_oracle_ok : bool;               (* harness: the replayed sca distances meet the oracle's contract *)
   lc_wl : list row;
   lc_dist : dspec;
   lc_out : list (nat * nat);         (* implementation: id column at lc_thr *)
@@ -153,4 +154,31 @@ Definition lex_case_code (c : lex_case) : nat :=
            flat_validb (lc_exact c) (lc_meth c) (lc_thr2 c) (lc_dist c) wl (lc_out2 c))
   + bit 4 (consequenceb (lc_thr c) (lc_dist c) wl (lc_out c) &&
            consequenceb (lc_thr2 c) (lc_dist c) wl (lc_out2 c))
-  + bit 5 (cog_refinesb wl (lc_out c) (lc_out2 c)).
+  + bit 5 (cog_refinesb wl (lc_out c) (lc_out2 c))
+  + bit 6 (lc_oracle_ok c).
+
+(* A call history on one LexStat object: the id column observed after each
+   cluster() call, with that call's threshold.  The model is a function of the
+   rows and the parameters of the call only, so every observed column is compared
+   with the model run at its own threshold, whatever was called before. *)
+Record lex_hist_case := {
+  lh_meth : method;
+  lh_exact : bool;
+  lh_oracle_ok : bool;
+  lh_wl : list row;
+  lh_dist : dspec;
+  lh_calls : list (Q * list (nat * nat))      (* (threshold of the call, column of its ref after the call) *)
+}.
+
+Definition lex_hist_code (c : lex_hist_case) : nat :=
+  let wl := lh_wl c in
+  let calls := lh_calls c in
+  bit 0 (negb (lh_exact c) ||
+         forallb (fun tc => option_eqb column_eqb (lexq (lh_meth c) (fst tc) (lh_dist c) wl) (Some (snd tc))) calls)
+  + bit 1 (forallb (fun tc => totalb wl (snd tc)) calls)
+  + bit 2 (forallb (fun tc => concept_disjointb wl (snd tc)) calls)
+  + bit 3 (forallb (fun tc => flat_validb (lh_exact c) (lh_meth c) (fst tc) (lh_dist c) wl (snd tc)) calls)
+  + bit 4 (forallb (fun tc => consequenceb (fst tc) (lh_dist c) wl (snd tc)) calls)
+  + bit 5 (forallb (fun a => forallb (fun b =>
+             negb (Qle_bool (fst a) (fst b)) || cog_refinesb wl (snd a) (snd b)) calls) calls)
+  + bit 6 (lh_oracle_ok c).
